@@ -264,9 +264,9 @@ func verifC30Parse(ks *verifC30Keys, mode string, tk *verifC30Tok, prot []string
 	if err := h.init(token, "verif"); err != nil {
 		return accessInfo{}, "rejected", err.Error()
 	}
-	// the fallback identity is told apart from an accepted token by asking the parser itself
-	if _, err := parseAccessToken(helper, token, prot, mode == "local", mode == "insecure"); err != nil {
-		return h.accessInfo, "healthcheck", err.Error()
+	// the fallback identity of healthcheckAccessInfo (no token of the driver names this user)
+	if h.accessInfo.user == "@healthcheck" {
+		return h.accessInfo, "healthcheck", ""
 	}
 	return h.accessInfo, "ok", ""
 }
